@@ -20,7 +20,7 @@ import sympy as sp
 from . import AnalysisError
 from .source import SourceModel
 from .symx import Interp, Frame, _cp
-from .symval import (SymObj, ClassVal, PropertyVal, Closure, BoundMethod, Builtin, ModuleVal, Phi, Vec, GenVal,
+from .symval import (SymObj, ClassVal, PropertyVal, Closure, BoundMethod, Builtin, ModuleVal, Phi, Vec, GenVal, TextFile,
                      SymRaise, _MISSING)
 from .world import SYMCONST
 
@@ -80,7 +80,7 @@ class LazyWorld:
         self.I = I = Interp(src, symbolic_constants=sc)
         I.default_open = {}
         I.stubs["core.get_data_path"] = lambda I_, a, k: "/data"
-        I.builtins["open"] = Builtin("open", lambda *a, **k: GenVal(["\t\t\n", ACT_ROW]))
+        I.builtins["open"] = Builtin("open", lambda *a, **k: TextFile(["\t\t\n", ACT_ROW], "activation.dat"))
         I.builtins["globals"] = Builtin("globals", lambda: {})
 
         def gettable(I_, args, kw):
@@ -127,12 +127,15 @@ class LazyWorld:
         regs = self.registrations
 
         def spy(I_, args, kw):
-            names = list(args[0])
-            loader = args[1]
-            pos = list(args[2:]) + [None] * 3
-            element = kw.get("element", pos[0] if pos[0] is not None else True)
-            isotope = kw.get("isotope", pos[1] if pos[1] is not None else False)
-            ion = kw.get("ion", pos[2] if pos[2] is not None else False)
+            b = I_.bound("core.delayed_load", args, kw)
+            sig = [a.arg for a in I_.src.func("core.delayed_load").node.args.args]
+            if len(sig) < 2 or sig[0] not in b or sig[1] not in b:
+                raise AnalysisError("delayed_load(names, loader, ...) call not understood")
+            names = list(b[sig[0]])
+            loader = b[sig[1]]
+            element = b.get("element", b.get(sig[2], True) if len(sig) > 2 else True)
+            isotope = b.get("isotope", b.get(sig[3], False) if len(sig) > 3 else False)
+            ion = b.get("ion", b.get(sig[4], False) if len(sig) > 4 else False)
             regs.append(Registration(names, loader, bool(element), bool(isotope), bool(ion), None))
             f = I_.src.func("core.delayed_load")
             del I_.stubs["core.delayed_load"]
